@@ -390,6 +390,8 @@ def real_code(ctx, drv, thorough, pool):
     ctx.log('engines of the real platforms (%s): %s' % (plats, stats3))
     if stats3.get('steps_skipped') and not stats3.get('panics'):
         ctx.notes.append('platform probe: %d scripted steps did not apply' % stats3['steps_skipped'])
+    ctx.cov['platform_configurations'] = plats.split(',')
+    stats2 = {k: stats2.get(k, 0) + stats3.get(k, 0) for k in set(stats2) | set(stats3)}
     # one TLC start validates all traces recorded so far (concatenated; every trace starts with its Reset line)
     tall = os.path.join(ctx.scratch, 'trace_all.ndjson')
     with open(tall, 'w') as f:
@@ -409,7 +411,8 @@ def real_code(ctx, drv, thorough, pool):
         if thorough:
             sysl = ['vectoradd:r9nano:2:64', 'vectoradd:r9nano:4:64', 'matrixtranspose:r9nano:2:64',
                     'matrixtranspose:r9nano:4:64', 'fir:r9nano:2:1024', 'fir:r9nano:4:2048', 'vectoradd:mi300a:2:64',
-                    'fir:mi300a:2:1024']
+                    'fir:mi300a:2:1024', 'matrixtranspose:r9nano:2:128', 'matrixtranspose:mi300a:2:64',
+                    'vectoradd:mi300a:4:64']
         else:
             sysl = ['vectoradd:r9nano:2:16', 'fir:r9nano:2:1024']
 
